@@ -19,12 +19,13 @@ NEEDS_DEPS = True
 WORKERS = 14
 CASE_TIMEOUT = 300
 REQUIRED_OBS = ["sessions_audited", "shard_files_decoded", "handle_vs_disk_comparisons",
-                "contract_evals"]
+                "contract_evals", "refused_writes_in_completed_sessions"]
 RULE = ("random histories of 1..6 completed sessions over {root filler, fresh/reused/nested sub-directory "
         "filler, multi-writer call with 1..4 writers} x splits x keep-or-reopen handle x per-session counts around "
         "multiples of the shard size x formats. Distinct = history shape (session kinds, directories, per-split "
         "counts, reopen flags, format, shard size); non-trivial iff >=2 sessions or a nested/multi-writer session.")
-ASSUMPTIONS = ["histories contain no rejected writes (C18 territory)", "one live handle at a time",
+ASSUMPTIONS = ["refused writes in 30 % of the histories are shape/rank violations only (what each format refuses is C18's "
+               "business)", "one live handle at a time",
                "multi-writer sessions run with single_process=True here; real processes are exercised by C09"]
 
 
@@ -34,10 +35,30 @@ def gen_cases(tier: str, seed: int) -> list[dict]:
     cases = []
     for _ in range(n):
         hist = H.gen_history(rng, max_sessions=5 if tier == "quick" else 7)
+        if rng.random() < 0.3:
+            add_refused_writes(hist, rng)
         cases.append({"hist": hist})
     # the repository's own test-suite under the contracts (every tier: ~40 s on 12 processes)
     cases.append({"kind": "suite-under-contracts", "timeout": 1500})
     return cases
+
+
+def add_refused_writes(hist: dict, rng: random.Random) -> None:
+    """A session in which the caller catches a refused example (wrong shape/rank) and carries on is a completed
+    session: put refused writes where the writer's bookkeeping is most delicate - right after a split's last
+    accepted write of the session (the open shard may be empty at exit) and at shard boundaries in between."""
+    for session in hist["sessions"]:
+        if session["kind"] == "multi":
+            continue
+        writes, out, per_split = session["writes"], [], Counter()
+        last_index = {write["split"]: k for k, write in enumerate(writes)}
+        for k, write in enumerate(writes):
+            out.append(write)
+            per_split[write["split"]] += 1
+            at_boundary = per_split[write["split"]] % hist["eps"] == 0
+            if (last_index[write["split"]] == k and rng.random() < 0.6) or (at_boundary and rng.random() < 0.3):
+                out.append({"split": write["split"], "bad": {"kind": rng.choice(["shape", "rank"]), "attr": rng.randrange(2)}})
+        session["writes"] = out
 
 
 def worker_init() -> None:
@@ -99,6 +120,8 @@ def run_case(case: dict) -> dict:
             violations.append({"key": f"contract/{failure['contract']}", "msg": failure["msg"]})
         obs["contract_evals"] = sum(evals.values())
         obs["sessions_run"] = len(model.sessions)
+        obs["refused_writes_in_completed_sessions"] = sum(1 for w in model.writes if w.bad and not w.accepted)
+        obs["refused_kind_accepted_by_format"] = sum(1 for w in model.writes if w.bad and w.accepted)
         kinds = Counter(s.kind for s in model.sessions)
         nontrivial = len(model.sessions) >= 2 or any(
             s["kind"] == "multi" or (s["kind"] == "subdir" and "/" in s["subdir"]) for s in hist["sessions"])
